@@ -17,7 +17,7 @@ pub struct C02;
 fn gen_buffers(r: &mut Rng, seed: u64) -> Case {
     const KEYS: &[&str] = &["a", "b", "c", "d", "e", "f", "g", "h", "i", "j", "k", "l", "m", "n", "o", "p", "q", "r", "s", "t", "u", "v", "w", "x", "y", "z", "1", "2", "3", "4", "5", "6", "7", "8", "9", "0"];
     let mut case = Case { prop: "C02".into(), seed, ..Default::default() };
-    let kind = *r.pick(&["wide-chord-v2", "wide-chord-v2", "wide-chord-v1", "oneshot-mods", "macros", "layers", "tapholds", "switch-depth", "degenerate", "degenerate"]);
+    let kind = *r.pick(&["wide-chord-v2", "wide-chord-v2", "wide-chord-v1", "oneshot-mods", "macros", "layers", "tapholds", "switch-depth", "degenerate", "degenerate", "accumulators"]);
     case.set("population", "mapped");
     case.set("buffers", kind);
     case.set("mode", if r.chance(500) { "blocking" } else { "ticking" });
@@ -121,6 +121,29 @@ fn gen_buffers(r: &mut Rng, seed: u64) -> Case {
             for k in down {
                 ops.push(Op::Release(code(k)));
                 ops.push(Op::Gap(1));
+            }
+            ops.push(Op::Gap(700));
+        }
+        "accumulators" => {
+            // actions that add to a counter every time they run (sequence-noerase while a sequence is
+            // active, movemouse-speed, nested layer holds): pressed over and over with large arguments
+            let n1 = *r.pick(&[30000u64, 40000, 65535, 1]);
+            case.cfg = format!(
+                "(defcfg sequence-input-mode visible-backspaced sequence-timeout {})\n(defsrc a b c d)\n(defvirtualkeys v0 x)\n(deflayer l0 sldr (sequence-noerase {n1}) (movemouse-speed {}) (multi (sequence-noerase {n1}) d))\n(defseq v0 (d d d d))\n",
+                *r.pick(&[1000u64, 30000, 65535]),
+                *r.pick(&[1u64, 200, 65535])
+            );
+            let keys = ["a", "b", "b", "c", "d"];
+            ops.push(Op::Press(code("a")));
+            ops.push(Op::Gap(2));
+            ops.push(Op::Release(code("a")));
+            ops.push(Op::Gap(2));
+            for _ in 0..r.range(3, 20) {
+                let k = *r.pick(&keys);
+                ops.push(Op::Press(code(k)));
+                ops.push(Op::Gap(*r.pick(&[0u32, 1, 3])));
+                ops.push(Op::Release(code(k)));
+                ops.push(Op::Gap(*r.pick(&[0u32, 1, 3, 10])));
             }
             ops.push(Op::Gap(700));
         }
